@@ -8,6 +8,7 @@ import (
 	"go/token"
 	"go/types"
 	"hash/fnv"
+	"os"
 	"strings"
 
 	"golang.org/x/tools/go/ssa"
@@ -263,6 +264,11 @@ func (vc *VC) mergeHeaps(b *ssa.BasicBlock, preds []*ssa.BasicBlock) *Heap {
 	} else {
 		vc.nver++
 		out.epoch = 1000 + vc.nver
+		// the merged state starts a new epoch: every component known so far is merged, also those no
+		// predecessor has touched yet (their epoch-initial versions differ from predecessor to predecessor)
+		for c := range vc.compSort {
+			comps[c] = true
+		}
 	}
 	for _, c := range sortedKeys(comps) {
 		vers := make([]string, len(preds))
@@ -740,6 +746,9 @@ func (vc *VC) loopMods(hdr *ssa.BasicBlock) (map[string]bool, map[string]bool, b
 				}
 			}
 			if a {
+				if os.Getenv("GOVC_TRACEHAVOC") != "" && !all {
+					fmt.Fprintf(os.Stderr, "loop in %s havocs everything because of %v at %v\n", vc.key, in, vc.prog.prog.Fset.Position(in.Pos()))
+				}
 				all = true
 			}
 		}
